@@ -41,8 +41,9 @@ META = {
         "scheme 'project' reaches render_link_project, whose two implementations strip exactly len('project:') and dispatch '#...' "
         "to render_link_anchor before any other outcome. "
         "R2 writer/reader agreement: render_link_anchor stores the marker and URI attributes that ResolveAnchorIds reads, stamps the "
-        "line, attaches the node exactly once on every path; the link text is percent-decoded (normalizeLinkText) by the writer or by "
-        "every caller; the reader strips exactly the leading '#' ([1:], removeprefix('#'), split('#', 1)[1], partition('#')[2] are accepted; "
+        "line, attaches the node exactly once on every path; the link text is percent-decoded completely (urllib.parse.unquote - markdown-it's "
+        "display decoder normalizeLinkText keeps %25 and reserved characters encoded, names are stored verbatim) and exactly once, on every "
+        "alternative of the stored value, by the writer or by every caller; the reader strips exactly the leading '#' ([1:], removeprefix('#'), split('#', 1)[1], partition('#')[2] are accepted; "
         "lstrip/strip/replace/split-all and other slices are violations), deletes the URI attribute around every refid store, walks all "
         "reference nodes of the whole document, leaves unmarked references alone; both parsers register the transform. "
         "R3 loop-body paths: every path through the resolver's loop body reaches exactly one outcome (refid from the explicit registry, "
@@ -82,6 +83,8 @@ META = {
         "system_message is appended to the reference (known finding: it is not). "
         "R5 also: a name is not dropped from the registry by an attribute test that MyST's own id carriers satisfy (a reference with "
         "refuri that was given an id) unless the test is restricted to a node class they do not have. "
+        "R5 also: a node class the reader drops from the registry (footnote) is not registered in the explicit-target name space, where a "
+        "name clash makes docutils invalidate both names (known finding: footnote labels are). "
         "R12 eval-rst: the names of the scratch document render_restructuredtext parses into are re-registered with the real document "
         "for every descendant, not only the direct children (known finding: only the direct children are)."
     ),
@@ -433,7 +436,7 @@ def _hash_fact(fi: FunctionInfo, e: ast.expr) -> ast.expr | None:
     return None
 
 
-_PREFIX_PRESERVING = ("normalizeLinkText", "str", "cast", "rstrip")
+_PREFIX_PRESERVING = ("normalizeLinkText", "unquote", "str", "cast", "rstrip")
 
 
 def _unwrap_prefix_preserving(e: ast.AST | None) -> ast.AST | None:
@@ -1277,13 +1280,62 @@ def r2_attribute_agreement(corpus: Corpus, rep: Report, tier: str):
             rep.violation(R2, k, site, f"the writer slices the target (`{short(v, 40)}`) although the reader strips the leading '#' itself")
         else:
             rep.ok(R2, k, site, f"{rs.uri_key} = {short(v, 40)}")
-        # the registries are keyed by source text; markdown-it percent-encodes hrefs: the stored URI must be decoded
-        # (normalizeLinkText) either by the writer or by every caller
-        def is_decode(x: ast.AST) -> bool:
-            return isinstance(x, ast.Call) and (dotted(x.func) or "").rsplit(".", 1)[-1] == "normalizeLinkText"
+        # the registries are keyed by the verbatim source names; markdown-it percent-encodes hrefs: the stored URI must be percent-decoded
+        # *completely* and exactly *once*, by the writer or by every caller. urllib.parse.unquote is complete; markdown-it's
+        # normalizeLinkText is a display decoder that keeps '%25' and reserved characters encoded ('(100%)=' is then looked up as '100%25').
+        def decoder_kind(fn: FunctionInfo, x: ast.AST) -> str | None:
+            if not isinstance(x, ast.Call):
+                return None
+            d = fn.module.resolve(dotted(x.func) or "")
+            last = (dotted(x.func) or "").rsplit(".", 1)[-1]
+            if d in ("urllib.parse.unquote", "urllib.parse.unquote_to_bytes") or (last == "unquote" and d.endswith("parse.unquote")):
+                return "complete" if not x.keywords and len(x.args) == 1 else "complete"
+            if last in ("normalizeLinkText", "unescapeAll"):
+                return "partial"
+            return None
+
+        def decoders_on_every_path(fn: FunctionInfo, e: ast.AST, at: ast.AST, depth: int = 0) -> list[set[str]]:
+            """one set of decoder kinds per alternative the value can come from (conditional expressions, alternative bindings)"""
+            if isinstance(e, ast.IfExp):
+                return decoders_on_every_path(fn, e.body, at, depth) + decoders_on_every_path(fn, e.orelse, at, depth)
+            if isinstance(e, ast.BoolOp):
+                return [k for v in e.values for k in decoders_on_every_path(fn, v, at, depth)]
+            here = {decoder_kind(fn, x) for x in ast.walk(e)} - {None}
+            names = [n.id for n in ast.walk(e) if isinstance(n, ast.Name) and n.id not in fn.params]
+            alts: list[set[str]] = [set(here)]
+            if depth < 3:
+                cfg_ = get_cfg(fn)
+                try:
+                    goal = cfg_.stmt_of(at)
+                except Unsupported:
+                    goal = None
+                for nm in names:
+                    outs: list[set[str]] = []
+                    for val, _, st in _bindings(fn, nm):
+                        if isinstance(st, (ast.For, ast.comprehension)):
+                            continue
+                        try:
+                            b = cfg_.stmt_of(st)
+                        except Unsupported:
+                            continue
+                        if goal is None or b is goal or goal in cfg_.reachable_from(b):
+                            for k_ in decoders_on_every_path(fn, val, st, depth + 1):
+                                outs.append(k_)
+                    if outs:
+                        alts = [a | o for a in alts for o in outs]
+            return alts
+
+        def count_complete(fn: FunctionInfo, e: ast.AST, at: ast.AST) -> int:
+            """how many complete decoders are nested/chained on the way (2 = decoded twice)"""
+            n = 0
+            for x in _closure(fn, e):
+                n += sum(1 for y in ast.walk(x) if decoder_kind(fn, y) == "complete")
+            return n
 
         if v is not None:
-            in_writer = _derives(w, v, is_decode)
+            w_alts = decoders_on_every_path(w, v, v)
+            in_writer = all("complete" in a for a in w_alts)
+            writer_partial = (not in_writer) and any(a for a in w_alts)
             sites = []
             for g in corpus.all_functions():
                 if g.is_lambda:
@@ -1296,18 +1348,43 @@ def r2_attribute_agreement(corpus: Corpus, rep: Report, tier: str):
             for g, c in sites:
                 a = c.args[1] if len(c.args) > 1 else kwarg(c, tparam or "target")
                 kk = f"{g.fq}|{short(c, 60)}: link text is percent-decoded before it is stored"
-                if in_writer:
-                    rep.ok(R2, kk, g.module.site(c), f"decoded in {w.qualname}")
-                elif a is not None and _derives_reaching(g, a, c, is_decode):
-                    rep.ok(R2, kk, g.module.site(c), "decoded by the caller")
-                else:
+                c_alts = decoders_on_every_path(g, a, c) if a is not None else [set()]
+                by_caller = all("complete" in x for x in c_alts)
+                caller_some = any("complete" in x for x in c_alts)
+                if in_writer and caller_some:
                     rep.violation(
                         R2,
                         kk,
                         g.module.site(c),
-                        f"`{short(c, 60)}` hands over the href as markdown-it percent-encoded it and {w.qualname} stores it undecoded (`{rs.uri_key} = {short(v, 30)}`): "
-                        "a name with non-ASCII letters or spaces (<project:#überschrift>) is looked up as '%C3%BCberschrift', reported missing and given a wrong refid",
+                        f"`{short(c, 60)}` percent-decodes the destination and {w.qualname} decodes it again (`{rs.uri_key} = {short(v, 30)}`): a name that contains a literal "
+                        "percent sequence ('(50%41)=' written `[](#50%2541)`) is decoded twice and looked up as '50A'",
                     )
+                elif in_writer:
+                    rep.ok(R2, kk, g.module.site(c), f"decoded completely in {w.qualname}")
+                elif by_caller and not writer_partial:
+                    rep.ok(R2, kk, g.module.site(c), "decoded completely by the caller")
+                else:
+                    kinds = set().union(*w_alts, *c_alts)
+                    if "partial" in kinds or (kinds and not in_writer):
+                        why = (
+                            "only with markdown-it's display decoder normalizeLinkText, which keeps '%25' and reserved characters encoded" if "partial" in kinds and "complete" not in kinds
+                            else "completely on some paths only (a conditional expression / alternative binding leaves a branch undecoded or only display-decoded)"
+                        )
+                        rep.violation(
+                            R2,
+                            kk,
+                            g.module.site(c),
+                            f"the destination handed over by `{short(c, 60)}` reaches `{rs.uri_key} = {short(v, 30)}` decoded {why}: target names are stored verbatim, so `(100%)=` + `[text](#100%)` "
+                            "(href '#100%25') is looked up as '100%25' and reported as 'target not found'",
+                        )
+                    else:
+                        rep.violation(
+                            R2,
+                            kk,
+                            g.module.site(c),
+                            f"`{short(c, 60)}` hands over the href as markdown-it percent-encoded it and {w.qualname} stores it undecoded (`{rs.uri_key} = {short(v, 30)}`): "
+                            "a name with non-ASCII letters or spaces (<project:#überschrift>) is looked up as '%C3%BCberschrift', reported missing and given a wrong refid",
+                        )
         k = f"{w.fq}|line stamped on the reference"
         stamped = any(isinstance(n, ast.Call) and _self_call(n) == "add_line_and_source_path" and n.args and isinstance(n.args[0], ast.Name) and n.args[0].id == nv for n in w.local_nodes())
         stamped = stamped or any(isinstance(n, ast.Assign) and any(isinstance(t, ast.Attribute) and t.attr == "line" and isinstance(t.value, ast.Name) and t.value.id == nv for t in n.targets) for n in w.local_nodes())
@@ -2343,7 +2420,34 @@ def r5_explicit_only(corpus: Corpus, rep: Report, tier: str):
             else:
                 rep.violation(R5, k, site, f"the heading-title name is registered as {kind or 'nothing'}: as an explicit name it collides with '(name)=' targets of the same name (docutils then invalidates both) and makes every title text a '#'-target")
         else:
-            rep.listed(R5, k, site, f"registered {kind}")
+            # a node class that the reader drops from the registry (footnote) must not be registered in the explicit-target *name* space:
+            # on a name clash docutils sets nameids[name] = None and moves the name of BOTH elements to dupnames, so the real target is lost
+            subj = _writer_subject(call)
+            tag = None
+            if isinstance(subj, ast.Name):
+                for val, idx, _ in _bindings(f, subj.id):
+                    if idx is None and isinstance(val, ast.Call):
+                        d = f.module.resolve(dotted(val.func) or "")
+                        if d.startswith("docutils.nodes."):
+                            tag = d.rsplit(".", 1)[1]
+            excluded = {
+                c.value
+                for e, p in cfg.guards(store_st)
+                if not p and isinstance(e, ast.Compare) and len(e.ops) == 1 and isinstance(e.ops[0], ast.Eq) and any(isinstance(x, ast.Attribute) and x.attr == "tagname" for x in ast.walk(e))
+                for c in ast.walk(e)
+                if isinstance(c, ast.Constant) and isinstance(c.value, str)
+            }
+            if kind == "explicit" and tag is not None and tag in excluded:
+                rep.violation(
+                    R5,
+                    k,
+                    reg and f.module.site(reg) or site,
+                    f"{f.qualname} registers the label of a nodes.{tag} with note_explicit_target, i.e. in the name space of '#' targets, although ResolveAnchorIds never resolves a link to a {tag}: "
+                    f"when a '(note)=' target (or {{#note}} / ':name: note') and a footnote '[^note]' share the name, docutils sets nameids['note'] = None and moves the name of both elements to dupnames, "
+                    "so `[link](#note)` is reported as 'target not found' although the target is in the doctree",
+                )
+            else:
+                rep.listed(R5, k, site, f"registered {kind}")
     for fq_, why in EXPLICIT_WRITERS.items():
         if fq_ not in seen:
             rep.error(R5, f"explicit-target writer {fq_} ({why}) not found")
@@ -3298,19 +3402,29 @@ def mutants(corpus: Corpus):
     else:
         out.append(("c09-uniquifier-if-instead-of-while", "no `while cand in slugs` loop in compute_unique_slug"))
     # ---- R2: percent-decoding of the link text (writer or every caller) --------------------------------
-    dec = find_node(ra, lambda n: isinstance(n, ast.Call) and (dotted(n.func) or "").endswith("normalizeLinkText"))
+    # the writer's decoder: the call around the `target` parameter in the value stored under the URI key
+    dec = find_node(ra, lambda n: isinstance(n, ast.Call) and (dotted(n.func) or "").rsplit(".", 1)[-1] in ("unquote", "normalizeLinkText") and n.args and any(isinstance(x, ast.Name) and x.id in ra.params for x in ast.walk(n.args[0])))
     anc = find_node(rl, lambda n: _self_call(n) == "render_link_anchor")
     if dec is not None and dec.args:
-        add("c09-link-text-not-decoded", R2, base, splice(base.src, dec, _seg(base, dec.args[0])), "percent-decoded")
+        fn_txt = _seg(base, dec.func)
+        arg_txt = _seg(base, dec.args[0])
+        add("c09-link-text-not-decoded", R2, base, splice(base.src, dec, arg_txt), "percent-decoded")
+        if fn_txt.endswith("unquote"):
+            # revert of 43662b5: markdown-it's display decoder, which keeps %25 and reserved characters encoded
+            add("c09-link-text-display-decoded-only", R2, base, splice(base.src, dec, f"self.md.normalizeLinkText({arg_txt})"), "percent-decoded")
+            # partial weakenings of the same obligation
+            add("c09-link-text-decoded-for-autolinks-only", R2, base, splice(base.src, dec, f'({fn_txt}({arg_txt}) if token.info == "auto" else self.md.normalizeLinkText({arg_txt}))'), "percent-decoded")
+            add("c09-link-text-decoded-unless-percent-sign", R2, base, splice(base.src, dec, f'({arg_txt} if "%25" in {arg_txt} else {fn_txt}({arg_txt}))'), "percent-decoded")
         if anc is not None and len(anc.args) > 1 and anc.lineno < dec.lineno:
-            moved = splice(base.src, dec, _seg(base, dec.args[0]))
-            moved = splice(moved, anc.args[1], f"self.md.normalizeLinkText({_seg(base, anc.args[1])})")
+            moved = splice(base.src, dec, arg_txt)
+            moved = splice(moved, anc.args[1], f"{fn_txt}({_seg(base, anc.args[1])})")
             add("c09-decode-moved-to-one-caller", R2, base, moved, "render_link_project")
+            add("c09-link-text-decoded-twice", R2, base, splice(base.src, anc.args[1], f"{fn_txt}({_seg(base, anc.args[1])})"), "decodes it again")
         pj = base.func("DocutilsRenderer.render_link_project")
         anc2 = find_node(pj, lambda n: _self_call(n) == "render_link_anchor")
         if anc2 is not None and len(anc2.args) > 1 and anc2.lineno < dec.lineno:
-            moved = splice(base.src, dec, _seg(base, dec.args[0]))
-            moved = splice(moved, anc2.args[1], f"self.md.normalizeLinkText({_seg(base, anc2.args[1])})")
+            moved = splice(base.src, dec, arg_txt)
+            moved = splice(moved, anc2.args[1], f"{fn_txt}({_seg(base, anc2.args[1])})")
             add("c09-decode-only-in-project-caller", R2, base, moved, "render_link|")
     else:
         out.append(("c09-link-text-not-decoded", "render_link_anchor does not decode on this tree"))
